@@ -302,6 +302,7 @@ def report(prop, tier, seed, mod, procs, cross, errors, known, workdir, t0, ncas
             "determinism_selfcheck": {"same_process_reexecutions": selfchecked, "cross_interpreter": crosscheck},
             "shrink_executions": sum(o["shrink_execs"] for o in outs),
             "harness_errors": len(harness),
+            "violating_scenarios": sum(o.get("violating_scenarios", 0) for o in outs),
         },
         "assumptions": mod.EVIDENCE.get("assumptions", []),
         "wall_s": round(wall, 2),
@@ -321,7 +322,7 @@ def report(prop, tier, seed, mod, procs, cross, errors, known, workdir, t0, ncas
         print(f"({dropped} further distinct violation signatures were found and not minimised/reported)", file=out)
     print(
         f"[{prop} {tier} seed={seed}] scenarios={executed} (enumerated {ncases}) distinct_nontrivial={len(nontrivial)} "
-        f"violations={len(reported)} known={sum(known_hits.values())} harness_errors={len(harness)} wall={wall:.1f}s",
+        f"violations={len(reported)} violating_scenarios={sum(o.get('violating_scenarios', 0) for o in outs)} known={sum(known_hits.values())} harness_errors={len(harness)} wall={wall:.1f}s",
         file=out,
     )
     if harness:
